@@ -359,6 +359,19 @@ func init() {
 			d = 8
 		}
 		jobs = append(jobs, s1job("entities", d, []string{"C11"}, 6, budget), s1job("pose-churn", d, []string{"C11"}, 6, budget))
+		// membership changes racing with a frame / with each other: afterwards every member's
+		// coalesced updates must still be flushed (oracle `liveness` of the pair blocks)
+		for _, p := range pairList {
+			sel := false
+			for _, r := range p {
+				if r.Kind == "join" || r.Kind == "leave" || r.Kind == "switch" {
+					sel = true
+				}
+			}
+			if sel && (len(p) == 2 || tier == "thorough") {
+				jobs = append(jobs, s2job(pairName(p...), b, budget))
+			}
+		}
 		return jobs
 	}, check.PropInfo{
 		Rule:        "S3: scripts of the owner's pose updates (sequence number in px) over two entities mixed with deletes, a joiner, a session switch, a close, updates that must be dropped (foreign / unknown entity, no pose) and frame ticks; the environment actions of a script are taken at quiescence by default and any of them may be taken early (1 deviation each), while the owner's receiver, main loop and sender and the session's frame worker are interleaved at lock/channel granularity (preemption-bounded): tick placement relative to arrival and to consumption is therefore enumerated. Oracle: per observer and entity px strictly increasing; after 3 further frames the last effective px is what b holds and what a newcomer is handed; no pose relay after the delete relay; dropped updates cause no relay and move nothing. Plus the S1 family `entities` (sequential coalescing semantics against the reference model).",
